@@ -18,6 +18,7 @@ const (
 	OutExitFail                    // a command exits with a non-zero status
 	OutErrFail                     // a non-exit-status error (e.g. template / parse error)
 	OutCanceled                    // the runner context was canceled while the task was running (not chosen by a driver)
+	OutErrQuiet                    // Run returns an error WITHOUT reporting a task change first (the task failed before its script ran)
 )
 
 func (k OutcomeKind) String() string {
@@ -373,6 +374,9 @@ func (m *MonRunner) Run(t *task.Task) error {
 		m.log.Add(Event{Kind: KRunExit, Job: jobID, Task: t.Name, Pipe: m.Pipeline, Res: "err-fail"})
 		m.notify(t)
 		return t.Error
+	case OutErrQuiet:
+		m.log.Add(Event{Kind: KRunExit, Job: jobID, Task: t.Name, Pipe: m.Pipeline, Res: "err-quiet"})
+		return ErrOther
 	default:
 		// told to stop: a slow task keeps running for a while
 		m.gates.waitStop(jobID, t.Name)
